@@ -477,6 +477,16 @@ func judgeHang(r *Run, j *Judged) {
 			for _, u := range e.Calls {
 				if u.Fg && !u.Ended {
 					pending = true
+					if u.ConnWait && !u.GotConn {
+						// not the origin: the pool. Nothing runs any more, so whoever holds the connections will
+						// never give them back - responses the cache received, did not hand on and did not close
+						// (a caller closes what it gets; a request whose context ends loses its connection)
+						held := []string{}
+						for _, c := range r.conns {
+							held = append(held, fmt.Sprintf("#%d", c.call.ID))
+						}
+						j.fail("C10", "hang:conn-leak", e, "", "RoundTrip waits for ever for one of the %d connection(s) the upstream transport allows: held by the unclosed response(s) of origin call(s) %s (virtual time %s)", r.Scn.MaxConns, strings.Join(held, ","), r.Sim.Now())
+					}
 				}
 			}
 			if pending && e.Op.CancelNs == 0 {
